@@ -70,15 +70,18 @@ CLAIMED = {
     "C09": dict(
         engine="X",
         engine_override="X+S",
-        technique="CrossHair symbolic execution of the real SimpleBatcher / subdivide_batches / generate_batches with symbolic sizes, ratios and a solver-chosen permutation stub; term-valued symbolic execution of the real error_estimate (z3) for batch-mean == full-batch loss",
+        technique="CrossHair symbolic execution of the real SimpleBatcher / subdivide_batches / generate_batches with symbolic sizes, ratios and a solver-chosen permutation stub, and of the real reconstruct / reset_recon / RNGMixin control flow with a seeded-generator stand-in (schedule determinism); term-valued symbolic execution of the real error_estimate (z3) for batch-mean == full-batch loss",
         text=("bounded model checking of the scheduling structure: for every n <= 7 (quick) / 9, batch size, validation ratio on "
               "the p/20 grid, split mode, shuffle flag and permutation choice the yielded batches are an exact partition of the "
               "training set, train/val are disjoint and covering and the reported counts equal the numbers yielded; "
               "subdivide_batches/generate_batches for all n <= 40, max_batch <= 45 with unrealised symbolic ints; for symbolic predictions, targets, "
               "detector mask and mean intensity the mean of the per-batch losses equals the full-batch loss for every divisor of the "
-              "pattern count and all four l1/l2 x amplitude/intensity losses"),
-        note=("trusts CrossHair/z3; the generator is a stub constrained by Generator.permutation's contract; bit-level seeded "
-              "determinism (seed C09_m2 is missed) is outside the claim; gradient equality follows from the decided loss identity by "
+              "pattern count and all four l1/l2 x amplitude/intensity losses; the real control flow of Ptychography.reconstruct / reset_recon / "
+              "RNGMixin / SimpleBatcher (numerical work of a step cut out) gives, after 0-2 earlier iterations, with reset=True the same loss "
+              "history and batch sequence as a fresh object from the same seed (n <= 5, seeds 0..2, three validation ratios, both split modes)"),
+        note=("trusts CrossHair/z3; the generator is a stub constrained by Generator.permutation's contract, in the determinism jobs a "
+              "stand-in whose k-th draw is a fixed function of (seed, k); bit-identical losses additionally need deterministic numerical "
+              "kernels (stated, not checked); gradient equality follows from the decided loss identity by "
               "linearity of differentiation (stated, not queried)"),
         design_ref="DESIGN.md §5 C09"),
     "C10": dict(
